@@ -66,6 +66,8 @@ def plan(tier, seed):
     for n in range(0, nmax + 2):
         for lay in range(10):
             tasks.append(('lines', {'n': n, 'tpl': None, 'layout': lay}))
+    for lay in range(10):
+        tasks.append(('lines', {'n': 4, 'tpl': 'crlf3', 'layout': lay}))
     for tpl in ('acute_mid', 'crlf', 'han_lead'):
         for lay in (1, 3, 5, 6, 7):
             tasks.append(('lines', {'n': 3, 'tpl': tpl, 'layout': lay}))
@@ -111,6 +113,13 @@ def text_bytes(h, name, n, tpl, alphabet):
         return HAN + sym
     if tpl == 'crlf':
         return sym[:1] + [13, 10] + sym[1:]
+    if tpl == 'crlf3':
+        out = []
+        for i, b in enumerate(sym):
+            out.append(b)
+            if i < 3:
+                out += [13, 10]
+        return out
     if tpl == 'quote_han':
         return [34] + HAN + sym
     if tpl == 'sci_fixed':
